@@ -1,4 +1,4 @@
-(* Proofs/CheckC17.v — (helper hI-c17) soundness of the comparator Check/C17.v: what an accepted
+(* Proofs/CheckC17Base.v — (helpers hI-c17, hI-c17p) soundness of the comparator Check/C17.v: what an accepted
    case line (code 0 = ok, 1 = borderline) says about the OBSERVED values.  Everything is over
    Z/Q/lists and closed under the global context. *)
 From Coq Require Import Qround Sorted Lqa.
@@ -181,4 +181,98 @@ Proof.
       * left. exact A.
       * rewrite Hb in A. discriminate.
       * rewrite Hb in A. injection A as <- <-. right. exact B.
+Qed.
+
+(* ---------- groups: exact or (borderline verdict and) admissible ---------- *)
+(* the judgement of a group with an admissible-set fallback, as a proposition over the verdict
+   code [cd]: the exact comparison succeeded, or the verdict is borderline, the exact comparison
+   failed and the observation is a member of the admissible set *)
+Definition gok (cd : Z) (E A : bool) : Prop := E = true \/ (cd = 1 /\ E = false /\ A = true).
+(* a law on observed values that a borderline group [amb] excuses *)
+Definition lok (cd : Z) (H amb : bool) : Prop := H = true \/ (cd = 1 /\ H = false /\ amb = true).
+
+Lemma grp_gok cd E A : grp E (fun _ => A) < cd + 1 -> cd = 0 \/ cd = 1 -> gok cd E A.
+Proof.
+  intros H Hc. unfold gok. destruct Hc as [-> | ->].
+  - left. eapply grp_lt1. exact H.
+  - destruct E; [now left|]. right. apply grp_lt2 in H. destruct H; [discriminate|auto].
+Qed.
+Lemma law_lok cd H amb : law H amb < cd + 1 -> cd = 0 \/ cd = 1 -> lok cd H amb.
+Proof.
+  intros H2 Hc. unfold lok. destruct Hc as [-> | ->].
+  - left. eapply law_lt1. exact H2.
+  - destruct H; [now left|]. right. apply law_lt2 in H2. destruct H2; [discriminate|auto].
+Qed.
+Lemma law_false_ok cd H : law H false < cd + 1 -> cd = 0 \/ cd = 1 -> H = true.
+Proof. intros K Hc. apply law_false_lt2. lia. Qed.
+Lemma conclude_groups tag gs c t p d : conclude tag gs = verdict c t p d -> c = 0 \/ c = 1 ->
+  Forall (fun g => fst g < c + 1) gs.
+Proof.
+  intros H Hc. destruct (conclude_code _ _ _ _ _ _ H) as [[-> F]|[[-> F]| ->]]; [exact F | exact F | lia].
+Qed.
+Lemma grp_ge1 E A : (1 <=? grp E A) = negb E.
+Proof. unfold grp. destruct E; [reflexivity|]. destruct (A tt); reflexivity. Qed.
+Lemma gok_code0 E A : gok 0 E A -> E = true.
+Proof. intros [H|[H _]]; [exact H | discriminate]. Qed.
+Lemma lok_code0 H amb : lok 0 H amb -> H = true.
+Proof. intros [K|[K _]]; [exact K | discriminate]. Qed.
+Lemma lok_no_amb cd H : lok cd H false -> H = true.
+Proof. intros [K|(_ & _ & K)]; [exact K | discriminate]. Qed.
+
+Lemma Forall_cons_inv {A} (P : A -> Prop) x l : Forall P (x :: l) -> P x /\ Forall P l.
+Proof. intro H. inversion H; auto. Qed.
+
+(* ---------- laws on the observed values shared by Linear and Log ---------- *)
+(* 21: observed CountTicks values are non-increasing along ascending levels *)
+Lemma counts_noninc_sound : forall l, counts_noninc l = true ->
+  forall l1 a b l2, l = l1 ++ a :: b :: l2 -> lv_level a <= lv_level b -> lv_count b <= lv_count a.
+Proof.
+  induction l as [|x t IH]; intros H l1 a b l2 E Hl.
+  - destruct l1; discriminate.
+  - destruct l1 as [|y l1]; cbn in E.
+    + injection E as -> ->. cbn in H. apply andb_prop in H. destruct H as [H _].
+      apply Bool.orb_true_iff in H. destruct H as [H|H]; [apply Z.ltb_lt in H; lia | now apply Z.leb_le in H].
+    + injection E as -> ->. apply (IH) with (l1 := l1) (l2 := l2); [|reflexivity|exact Hl].
+      cbn in H. destruct (l1 ++ a :: b :: l2) eqn:E'; [reflexivity|]. apply andb_prop in H. tauto.
+Qed.
+
+Local Open Scope Q_scope.
+(* 40: the second Nice leaves the observed niced domain [ao, bo] *)
+Definition law40 (tolv : Q -> Q) (nomax : Z) (ao bo : Q) (nst2 : Z) (a2 b2 : xreal) : bool :=
+  (nomax <? 3)%Z || ((nst2 =? 0)%Z && xwithin (tolv ao) (XFin ao) a2 && xwithin (tolv bo) (XFin bo) b2).
+Lemma law40_sound tolv nomax ao bo nst2 a2 b2 : law40 tolv nomax ao bo nst2 a2 b2 = true -> (3 <= nomax)%Z ->
+  nst2 = 0%Z /\ exists a2' b2', a2 = XFin a2' /\ b2 = XFin b2' /\ Qabs (a2' - ao) <= tolv ao /\ Qabs (b2' - bo) <= tolv bo.
+Proof.
+  unfold law40. intros H Hm. apply Bool.orb_true_iff in H. destruct H as [H|H]; [apply Z.ltb_lt in H; lia|].
+  apply andb_prop in H. destruct H as [H H3]. apply andb_prop in H. destruct H as [H1 H2].
+  apply Z.eqb_eq in H1. apply xwithin_fin in H2, H3. destruct H2 as (p & -> & Hp). destruct H3 as (q & -> & Hq).
+  split; [exact H1|]. exists p, q. auto.
+Qed.
+(* 41: the first and the last major tick after Nice are the observed new ends *)
+Definition law41 (tolv : Q -> Q) (nomax : Z) (found : bool) (ao bo : Q) (major3 : list xreal) : bool :=
+  (nomax <? 3)%Z || negb found ||
+  match first_last major3 with
+  | Some (f, l) => xwithin (tolv ao) (XFin ao) f && xwithin (tolv bo) (XFin bo) l
+  | None => false
+  end.
+Lemma law41_sound tolv nomax found ao bo major3 : law41 tolv nomax found ao bo major3 = true -> (3 <= nomax)%Z -> found = true ->
+  exists f rest t0 tl, major3 = f :: rest /\ f = XFin t0 /\ last major3 f = XFin tl /\
+    Qabs (t0 - ao) <= tolv ao /\ Qabs (tl - bo) <= tolv bo.
+Proof.
+  unfold law41. intros H Hm ->. apply Bool.orb_true_iff in H. destruct H as [H|H].
+  { apply Bool.orb_true_iff in H. destruct H as [H|H]; [apply Z.ltb_lt in H; lia | discriminate]. }
+  destruct major3 as [|f rest]; [discriminate|]. cbn [first_last] in H. apply andb_prop in H. destruct H as [H1 H2].
+  apply xwithin_fin in H1, H2. destruct H1 as (p & -> & Hp). destruct H2 as (q & E & Hq).
+  exists (XFin p), rest, p, q. auto.
+Qed.
+(* 43: Map(new Min) = 0 and Map(new Max) = 1 unless the new domain is degenerate *)
+Definition law43 (ao bo : Q) (m0 m1 : xreal) : bool :=
+  Qeqb ao bo || (xwithin e12 (XFin 0) m0 && xwithin e12 (XFin 1) m1).
+Lemma law43_sound ao bo m0 m1 : law43 ao bo m0 m1 = true -> ~ ao == bo ->
+  exists p q, m0 = XFin p /\ m1 = XFin q /\ Qabs p <= e12 /\ Qabs (q - 1) <= e12.
+Proof.
+  unfold law43. intros H Hn. apply Bool.orb_true_iff in H. destruct H as [H|H]; [apply Qeqb_true in H; contradiction|].
+  apply andb_prop in H. destruct H as [H1 H2]. apply xwithin_fin in H1, H2.
+  destruct H1 as (p & -> & Hp). destruct H2 as (q & -> & Hq). exists p, q. repeat split; auto.
+  assert (E : p - 0 == p) by ring. rewrite <- E. exact Hp.
 Qed.
